@@ -31,7 +31,15 @@ func runSB(c *Ctx, s *Sink) {
 	info := p.TypesInfo
 	recvName := fd.Recv.List[0].Names[0].Name
 	lenAtom := "|" + recvName + "|"
-	env := &linEnv{info: info, vars: map[types.Object]linForm{}, defs: map[types.Object][]ast.Expr{}, atoms: map[string]bool{lenAtom: true}, lens: map[string]bool{lenAtom: true}, elems: map[string]linForm{}}
+	env := &linEnv{info: info, vars: map[types.Object]linForm{}, defs: map[types.Object][]ast.Expr{}, atoms: map[string]bool{lenAtom: true}, lens: map[string]bool{lenAtom: true}, elems: map[string]linForm{},
+		// helpers of the package (bounds checked in a validator returning an error) are followed
+		decl: func(f *types.Func) (*ast.FuncDecl, *types.Info) {
+			d, dp := c.DeclOf(f)
+			if d == nil {
+				return nil, nil
+			}
+			return d, dp.TypesInfo
+		}}
 	type ob struct {
 		pos  string
 		what string
